@@ -191,8 +191,10 @@ def conclude(prop, tier, seed, mon, results, findings, infra, t0, out, write_evi
         for k, v in st.get("counters", {}).items():
             counters[k] = counters.get(k, 0) + v
         fam = r.get("family", "?")
-        fm = families.setdefault(fam, {"cases": 0, "nontrivial": 0, "violated": 0, "inconclusive": 0})
+        fm = families.setdefault(fam, {"cases": 0, "nontrivial": 0, "violated": 0, "inconclusive": 0, "nothing_to_probe": 0})
         fm["cases"] += 1
+        if st.get("empty"):
+            fm["nothing_to_probe"] += 1
         if st.get("nontrivial"):
             fm["nontrivial"] += 1
             for s in st.get("sigs", [st.get("sig")]):
@@ -237,7 +239,7 @@ def conclude(prop, tier, seed, mon, results, findings, infra, t0, out, write_evi
     # a family (catalogue kind) in which no case decided anything was not covered
     if write_evidence:
         for fam_name, fm in families.items():
-            if fm["cases"] >= 3 and fm["nontrivial"] == 0 and fam_name != "infra":
+            if fm["cases"] - fm.get("nothing_to_probe", 0) >= 3 and fm["nontrivial"] == 0 and fam_name != "infra":
                 unmet.append(f"family {fam_name}: 0/{fm['cases']} cases decided anything")
     inconc = verdicts.get("inconclusive", 0)
     if n == 0:
